@@ -40,6 +40,10 @@ def build(seed):
             if p not in fs.files and p.split("/")[0] not in fs.files:
                 fs.files[p] = "late " + p
                 ops.append({"op": "write", "path": p, "data": "late " + p})
+    if rnd.random() < 0.25 and len(fs.files) > 1:
+        lost = rnd.choice(sorted(fs.files))
+        del fs.files[lost]
+        ops.append({"op": "rm", "path": lost})  # the packing list still has to carry every path ever recorded
     ops.append({"op": "flatten", "at": ""})
     ops.append({"op": "verifypl", "at": ""})
     allpats = [x for o in ops for x in o.get("i", [])]
